@@ -35,6 +35,13 @@ def cases_C06(tier, seed):  # noqa: F811
             text = tmpl % ch
             for opts in ((), (('reindent', True),), (('strip_whitespace', True),), (('use_space_around_operators', True),)):
                 yield (text, opts)
+    # quoted identifiers other than "..." that contain a line break (the serializer protects only '...' and "..."): the
+    # class of the open finding C06:bounded:line-break-inside-bracket-or-backtick-name
+    for ch in ('\n', '\r\n', ' \n', '\r'):
+        for tmpl in ('select [br%sx] from t', 'select `na%sme` from t', 'select a, [x%sy] as c from [t%s1]'):
+            text = tmpl.replace('%s', ch)
+            for opts in ((), (('reindent', True),), (('strip_whitespace', True),)):
+                yield (text, opts)
     yield from _base_cases_C06(tier, seed)
 
 
@@ -321,3 +328,15 @@ def oracle_C11(case):  # noqa: F811
     except Exception:       # noqa
         pass
     return _base_oracle_C11(case)
+
+
+_base_cases_C08 = cases_C08  # noqa: F821
+
+
+def cases_C08(tier, seed):  # noqa: F811
+    # class of the open finding C08:bounded:line-break-inside-bracket-or-backtick-name
+    for ch in ('\n', '\r\n', ' \n'):
+        for tmpl in ('select [br%sx] from t -- c', 'select `na%sme` /* c */ from t'):
+            for opts in ((('strip_comments', True),), (('keyword_case', 'upper'),), (('truncate_strings', 3),)):
+                yield (tmpl.replace('%s', ch), opts)
+    yield from _base_cases_C08(tier, seed)
